@@ -17,7 +17,7 @@ REPLAY_DEADLINE = 120
 FLAGSETS = ['GE', 'GDE', 'E', 'GEY', 'GDEY', 'GEX', 'GEK', 'GEZ', 'GDEX', 'DE']
 BASH_SETS = {'GE': (True, False, True), 'GDE': (True, True, True), 'E': (False, False, True), 'DE': (False, True, True),
              'GEY': (True, False, False), 'GDEY': (True, True, False)}
-CASE_FLAGSETS = ['GEI', 'GDEI', 'GE']
+CASE_FLAGSETS = ['GEI', 'GDEI', 'GE', 'GEW', 'GEWU', 'GEC', 'GEIC']      # W: FORCEWIN is dropped by glob() on this platform
 HORIZON = 3000
 
 
